@@ -17,6 +17,12 @@ ID = "C20"
 
 HARNESSES = [
     H("c20_i32_lexical_form", "for all i32 x: x.lexical_form() matches [+-]?[0-9]+ and has <= 11 bytes", complete=True, timeout=1500),
+    H("c20_i32_min_denotes", "i32::MIN.lexical_form() == \"-2147483648\"", bound="concrete extreme", timeout=600),
+    H("c20_i32_max_denotes", "i32::MAX.lexical_form() == \"2147483647\"", bound="concrete extreme", timeout=600),
+    H("c20_i32_zero_denotes", "0i32.lexical_form() == \"0\"", bound="concrete value", timeout=600),
+    H("c20_isize_min_denotes", "isize::MIN.lexical_form() == \"-9223372036854775808\"", bound="concrete extreme", timeout=600),
+    H("c20_usize_max_denotes", "usize::MAX.lexical_form() == \"18446744073709551615\"", bound="concrete extreme", timeout=600),
+    H("c20_i32_small_denotes", "for all i32 in (-100, 100): the lexical form denotes the value (harness decimal evaluator)", bound="|x| < 100", timeout=1200),
     H("c20_bool_roundtrip", "both bools: lexical form true/false, datatype xsd:boolean, bool::try_from_term(b) == Ok(b)", complete=True, timeout=600),
     H("c20_f64_pos_inf", "f64::INFINITY.lexical_form() == \"INF\"", complete=False, bound="representative value +inf", timeout=600),
     H("c20_f64_neg_inf", "f64::NEG_INFINITY.lexical_form() == \"-INF\"", complete=False, bound="representative value -inf", timeout=600),
@@ -42,7 +48,7 @@ def run(rep):
             rep.violation("kani:sophia_api::" + h.name, kani_unit.describe_failure(r), witness=witness,
                           replay_text="./check C20 --replay <this file>   # replay_src/c20 on the real sophia_api", confirmed=confirmed)
     rep.not_covered += ["finite f64 values (shortest round-trip formatting / dec2flt): out of CBMC's reach",
-                        "full-domain integer round trip parse(format(x)) == x (CBMC does not finish); only the lexical-space half is proved",
+                        "full-domain 'lexical form denotes x' / round trip parse(format(x)) == x (CBMC does not finish: > 50 min); proved: lexical space for every value; denotation only at the extremes, zero and |x| < 100",
                         "try_from_term on arbitrary lexical forms of the whitelisted datatypes"]
 
 
